@@ -235,7 +235,7 @@ int main(int argc, char** argv) {
     subs.push_back(s);
   }
   {
-    Sub s; s.name = "c10.paths"; s.property = "C10"; s.instances = 3 * 2 * 9; s.n_quick = 600; s.n_thorough = 40000; s.run = c10_paths;
+    Sub s; s.name = "c10.paths"; s.property = "C10"; s.instances = 3 * 2 * 9; s.n_quick = 3000; s.n_thorough = 60000; s.run = c10_paths;
     s.gen = [](int inst) { const int path = inst % 9, n = 2 + (inst / 9) % 2, nt = inst / 18;
       // the converting copy goes through another precision (double <-> long double, float -> double): stay inside the range of both (out-of-range narrowing is UB)
       const int gnt = path == 8 ? (nt == 2 ? 1 : nt) : nt;
@@ -247,13 +247,13 @@ int main(int argc, char** argv) {
     subs.push_back(s);
   }
   {
-    Sub s; s.name = "c10.cross"; s.property = "C10"; s.instances = 6; s.n_quick = 2000; s.n_thorough = 100000; s.run = c10_cross;
+    Sub s; s.name = "c10.cross"; s.property = "C10"; s.instances = 6; s.n_quick = 10000; s.n_thorough = 200000; s.run = c10_cross;
     s.gen = [](int inst) { const int n = 2 + inst % 2, nt = inst / 2; return rc::gen::map(rc::gen::tuple(gen_vec(nt, n, 20), gen_vec(nt, n, 20)), [=](const std::tuple<std::vector<LD>, std::vector<LD>>& t) { Case c; c.i = {nt, n}; c.r = std::get<0>(t); c.r.insert(c.r.end(), std::get<1>(t).begin(), std::get<1>(t).end()); return c; }); };
     s.rule = "the cross product of two directions (3-D) / planar directions (2-D) is a direction: unit length within 4 ulp, parallel to a x b within the conditioning 1/|a x b|; non-trivial: |a x b| > sqrt(eps)";
     subs.push_back(s);
   }
   {
-    Sub s; s.name = "c11.kernels"; s.property = "C11"; s.instances = 3 * 8 * 2; s.n_quick = 1500; s.n_thorough = 60000; s.run = c11_kernel;
+    Sub s; s.name = "c11.kernels"; s.property = "C11"; s.instances = 3 * 8 * 2; s.n_quick = 6000; s.n_thorough = 100000; s.run = c11_kernel;
     s.gen = [](int inst) { const int form = inst % 2, kernel = (inst / 2) % 8, nt = inst / 16; const int n = kernel < 4 ? 3 : 2;
       return rc::gen::map(rc::gen::tuple(gen_pair(nt, n), irange(-40, 40), irange(-40, 40)), [=](const std::tuple<std::vector<LD>, int, int>& t) { Case c; c.i = {nt, kernel, form, std::get<1>(t), std::get<2>(t)}; c.r = std::get<0>(t); return c; }); };
     s.instance_name = [](int inst) { return std::string(kKernel[(inst / 2) % 8]) + (inst % 2 ? "/member" : "/ctor") + "/" + ntinfo(inst / 16).name; };
